@@ -33,7 +33,7 @@ func c11N(tier string) int {
 func init() {
 	register(&Prop{
 		ID:   "C11",
-		Rule: "inputs biased to what makes map iteration matter: hostile G-pager documents (several numeric URL components per link, gapped and equal-length runs, multi-valued query parameters, single-link groups), G-article pages with pagers, G-markup pages with several schema.org items / OpenGraph prefixes. (a) every input runs R times in one process (R = 8 quick / 40 thorough for pagination-bearing inputs, 3 / 6 otherwise), alternating ApplyForReader, ApplyForFile and Apply(dom.Parse(bytes)); all of Title, Text, serialised Node, WordCount, ContentImages, MarkupInfo, PaginationInfo, URL must be equal (nil = empty slice; TimingInfo ignored); (b) every input runs again in a second pass in reverse order in a different worker process and the digests of both passes are compared by the parent. Non-trivial = an input with non-empty output or non-empty pagination/markup; distinct = distinct input digests.",
+		Rule: "inputs biased to what makes map iteration matter: hostile G-pager documents (several numeric URL components per link, gapped and equal-length runs, multi-valued query parameters, single-link groups), G-article pages with pagers, G-markup pages with several schema.org items / OpenGraph prefixes. (a) every input runs R times in one process (R = 8 quick / 40 thorough for pagination-bearing inputs, 3 / 6 otherwise), alternating ApplyForReader, ApplyForFile and Apply(dom.Parse(bytes)); all of Title, Text, serialised Node, WordCount, ContentImages, MarkupInfo, PaginationInfo, URL must be equal (nil = empty slice; TimingInfo ignored); (b) every input runs again in a second pass in reverse order in a different worker process and the digests of both passes are compared by the parent; (c) one input in 32 is a pair of pages of one (case-unique) host whose page URL + reference read the same when concatenated but resolve differently (http://h/story + /2, http://h/story/ + 2; cuts inside a component or the query), run in one order in the first pass and in the other order in the second. Non-trivial = an input with non-empty output or non-empty pagination/markup; distinct = distinct input digests.",
 		Assumptions: []string{
 			"map-order dependence is probabilistic per input: a 25% minority outcome is missed with probability 0.75^8 = 10% per input in quick and 1e-5 in thorough; many inputs share a cause",
 			"ApplyForFile reads the same bytes from a scratch file",
@@ -41,7 +41,7 @@ func init() {
 		N:       func(tier string) int { return 2 * c11N(tier) },
 		Workers: 16,
 		Floors: func(tier string) map[string]int64 {
-			return map[string]int64{"repetitions_compared": 15000, "inputs_with_pagination_result": 500, "inputs_with_markup": 200, "cross_process_pairs_compared": 2000}
+			return map[string]int64{"repetitions_compared": 15000, "inputs_with_pagination_result": 500, "inputs_with_markup": 200, "cross_process_pairs_compared": 2000, "alias_pairs_with_links_that_differ": 100}
 		},
 		Run:        runC11,
 		PostParent: c11Post,
@@ -173,6 +173,10 @@ func runC11(c *Ctx, idx int) {
 	if idx >= n {
 		pass = 2
 		j = 2*n - 1 - idx
+	}
+	if j%32 == 18 {
+		runC11Alias(c, j, pass)
+		return
 	}
 	src, opts, paging, kind := c11Input(c, j)
 	R := 3
@@ -312,6 +316,73 @@ func runC11(c *Ctx, idx int) {
 	c.Sample(func() any {
 		return map[string]any{"input": j, "kind": kind, "options": optsDesc(opts), "html": trunc(src, 1000)}
 	})
+}
+
+// runC11Alias: "regardless of earlier calls" for two pages whose (page URL, reference)
+// pairs read the same when written one after the other — http://h/story + /2 and
+// http://h/story/ + 2 — but resolve to different addresses. The two pages run in one
+// order in the first pass and in the other order in the second pass (another worker
+// process); the host is unique to the case, so nothing else in either process has seen
+// these strings. Each page must give the same result in both passes.
+func runC11Alias(c *Ctx, j, pass int) {
+	r := c.RNG(j, 7)
+	host := fmt.Sprintf("h%d.example", j)
+	k := 2 + r.Intn(8)
+	var urlA, refA, urlB, refB string
+	switch r.Intn(3) {
+	case 0: // the slash moves from the reference to the page URL
+		urlA, refA = "http://"+host+"/story", fmt.Sprintf("/%d", k)
+		urlB, refB = "http://"+host+"/story/", fmt.Sprintf("%d", k)
+	case 1: // the cut is inside a path component
+		urlA, refA = "http://"+host+"/st", fmt.Sprintf("ory/%d", k)
+		urlB, refB = "http://"+host+"/story", fmt.Sprintf("/%d", k)
+	default: // the cut is inside the query
+		urlA, refA = "http://"+host+"/story", fmt.Sprintf("?p=%d", k)
+		urlB, refB = "http://"+host+"/story?p=", fmt.Sprintf("%d", k)
+	}
+	doc := func(ref string) string {
+		rr := c.RNG(j, 8) // the same words in both pages
+		return `<html><head><title>Two pages of one site</title></head><body><article><p>` + fillerEnglish(rr, 45) + ` <a href="` + ref + `">the second part</a> ` + fillerEnglish(rr, 25) + `</p><p>` + fillerEnglish(rr, 60) +
+			`</p><img src="` + ref + `" width="600" height="400"><p>` + fillerEnglish(rr, 50) + `</p><div class="pagination"><a href="` + ref + `">` + fmt.Sprint(k) + `</a></div></article></body></html>`
+	}
+	opts := func(u string) *distiller.Options {
+		return &distiller.Options{OriginalURL: mustURL(u), PaginationAlgo: distiller.PaginationAlgo(j / 32 % 2)}
+	}
+	srcA, srcB := doc(refA), doc(refB)
+	c.SetInput(func() any {
+		return map[string]any{"page_a": urlA, "html_a": srcA, "page_b": urlB, "html_b": srcB, "order": map[int]string{1: "a, b", 2: "b, a"}[pass]}
+	})
+	var vA, vB resultView
+	run := func(src, u string, into *resultView) bool {
+		cr := c.applyReader(src, opts(u))
+		if !c.usable(cr) {
+			return false
+		}
+		*into = viewOf(cr.Res)
+		return true
+	}
+	ok := false
+	if pass == 1 {
+		ok = run(srcA, urlA, &vA) && run(srcB, urlB, &vB)
+	} else {
+		ok = run(srcB, urlB, &vB) && run(srcA, urlA, &vA)
+	}
+	if !ok {
+		return
+	}
+	if pass == 1 {
+		c.Inc("alias_pairs")
+		if strings.Contains(vA.HTML, `href="`) && strings.Contains(vB.HTML, `href="`) && vA.HTML != vB.HTML {
+			c.Inc("alias_pairs_with_links_that_differ")
+		}
+	}
+	dg := fmt.Sprintf("%016x", hashStr(fmt.Sprintf("%v|%v", vA, vB)))
+	c.Sig(dg)
+	f, err := os.OpenFile(filepath.Join(c.scratch, fmt.Sprintf("c11digest.%d", pass)), os.O_APPEND|os.O_CREATE|os.O_WRONLY, 0o644)
+	if err == nil {
+		fmt.Fprintf(f, "%d %s %s|%s|%s|%s\n", j, dg, vA.Prev, vA.Next, vB.Prev, vB.Next)
+		f.Close()
+	}
 }
 
 func c11Post(p *Parent) {
